@@ -8,6 +8,9 @@ BASE_NOTE = "Trusted base: Go 1.26.8 toolchain (testing/synctest for the virtual
 
 # property -> (technique, level text, design ref, extra note)
 CLAIMED = {
+ "C07": ("metamorphic search over segmentations in a synctest bubble: same frame sequence, generated cuts, handler/signal log must not depend on the cuts; oversize headers without body",
+         "Generated frame sequences x segmentations x connection cache sizes (12k quick / 300k thorough) against tcp.Client on an in-memory stream; quiescence detection makes 'closed as soon as the header is seen, without any body byte' a decidable statement.",
+         "DESIGN.md 3/C07", ""),
  "C06": ("fault-tape x tick-schedule search in a synctest bubble with a scripted wire-level peer; history invariants over the timestamped wire log",
          "Generated loss patterns over transmissions and replies, peer reactions, caller deadlines/cancellations and housekeeping tick schedules around k x ACK_TIMEOUT (40k quick / 600k thorough) against a real client connection; the virtual clock makes 'k-th copy not before t0 + k x ACK_TIMEOUT' and 'no copy after the ACK was delivered' exact statements over the wire log.",
          "DESIGN.md 3/C06", ""),
